@@ -103,7 +103,11 @@ def _walk_template(d: ast.expr, keys: List[str]) -> Tuple[bool, Optional[str]]:
 def schema_templates(ck: Check, prog: Program) -> None:
     tpl = _templates(prog)
     m = prog.modules[SCHEMAS]
-    ck.require('SCHEMA-VOCAB', 'schema templates in specs/schemas.py', len(tpl), 3)
+    if not tpl:
+        # the templates are not written as displays (built by a function, loaded from a file, …): what they contain is not read
+        ck.not_decided.append('specs/schemas.py: the envelope schema templates are not dictionary displays; TEMPLATE-PATH / SCHEMA-VOCAB not decided')
+        ck.ob('SCHEMA-VOCAB', 'schema templates are displays', True, nontrivial=False)
+        return
     bad: List[Tuple[int, str, str]] = []
     for name, d in sorted(tpl.items()):
         _vocab_walk(d, name, bad)
@@ -198,7 +202,8 @@ def schema_templates(ck: Check, prog: Program) -> None:
             if all(isinstance(k, ast.Constant) and isinstance(k.value, str) for k in d.keys if k is not None):
                 _vocab_walk(d, where, bad)
     ck.ob('TEMPLATE-PATH', f'{n_paths} constant subscript paths read from template copies exist in the templates', not path_bad, nontrivial=n_paths > 0)
-    ck.require('TEMPLATE-PATH', 'template paths read by the envelope builders', n_paths, 3)
+    if len(tpl) >= 3:
+        ck.require('TEMPLATE-PATH', 'template paths read by the envelope builders', n_paths, 3)
     for f, line, construct, msg in path_bad:
         ck.finding('TEMPLATE-PATH', f.qualname, construct, f.module.rel, line, msg)
     ck.ob('SCHEMA-VOCAB', f'{len(tpl)} templates and the displays of {len(funcs)} builders use JSON-Schema keywords only', not bad)
